@@ -19,3 +19,9 @@ package band
 //@ ensures forall i Int, j Int :: 0 <= i && i < j && j < len(result) ==> result[i] != result[j]
 //@ ensures exists a Int, b Int, c Int :: 0 <= a && a < b && b < c && c < len(result) && result[a] == "oracle" && result[b] == "tss" && result[c] == "bandtss"
 //@ ensures exists a Int, b Int :: 0 <= a && a < b && b < len(result) && result[a] == "feeds" && result[b] == "tunnel"
+
+// C16 / C17 / C13: the module accounts that hold users' coins (restake stakes, tunnel deposits and fees, bandtss fees) are
+// fully backed by the modules' own records only because nobody can pay into them from outside: every module account
+// except gov's stays on the bank keeper's blocked-recipient list.
+//@ func (app *BandApp) BlockedModuleAccountAddrs
+//@ ensures forall q Str :: q != addrstr(ext("NewModuleAddress", "gov")) ==> (has(result, q) <==> has(old(modAccAddrs), q))
